@@ -204,6 +204,36 @@ def is_fail(d):
   return d is not None and 'leaf' in d
 
 
+def worst_dev(got, ref):
+  """largest |got-ref| / (1+|ref|) over the finite float entries of two pytrees of the same structure"""
+  w = 0.0
+  for (_, x), (_, y) in zip(named_leaves(got), named_leaves(ref)):
+    if x.shape != y.shape or x.size == 0 or x.dtype.kind in 'biu':
+      continue
+    with np.errstate(invalid='ignore'):
+      err = np.abs(x.astype(np.float64) - y.astype(np.float64)) / (1.0 + np.abs(y.astype(np.float64)))
+    fin = np.isfinite(err)
+    if fin.any():
+      w = max(w, float(err[fin].max()))
+  return w
+
+
+def sensitivity(fs, q, qd, act, n, seed=0):
+  """how much the SOLO executable's own result moves when (q, qd) are perturbed by one part in 1e15
+  (about 4 ulp): the property only speaks about inputs where the step is continuous, and an input where
+  round-off is amplified beyond the comparison tolerance cannot be compared across executables"""
+  jp = mods()['jp']
+  r = np.random.default_rng(seed)
+  q, qd = np.asarray(q, dtype=np.float64), np.asarray(qd, dtype=np.float64)
+  base = fs(jp.asarray(q), jp.asarray(qd), jp.asarray(act), n)
+  amp = 0.0
+  for _ in range(3):
+    qq = q * (1 + 1e-15 * r.choice([-1.0, 1.0], size=q.shape))
+    qdq = qd * (1 + 1e-15 * r.choice([-1.0, 1.0], size=qd.shape))
+    amp = max(amp, worst_dev(fs(jp.asarray(qq), jp.asarray(qdq), jp.asarray(act), n), base))
+  return amp
+
+
 def hexl(arr):
   return [wire.f2hex(v) for v in np.asarray(arr, dtype=np.float64).reshape(-1)]
 
@@ -324,7 +354,7 @@ def leg_reductions(ctx, acc, rng):
         hist[k] = hist.get(k, 0) + 1
       info = dict(leg='reduction', fn=name, batch=X.tolist())
       try:
-        real = flat(jax.jit(jax.vmap(fn))(jp.asarray(X)))
+        real = flat(jax.jit(jax.vmap(fn, axis_name='batch'))(jp.asarray(X)))
         solo = np.stack([flat(jax.tree.map(lambda v: v[None], fn(jp.asarray(X[i]))))[0] for i in range(B)])
       except Exception as e:   # noqa: BLE001
         acc.fail(key=f'C07:exception:{name}', what=f'{name} raises {type(e).__name__}: {e} on a valid batch', **info)
@@ -640,7 +670,7 @@ def check_bundled(c):
 
 
 def leg_bundled(ctx, acc, rng):
-  backs = ['spring'] if ctx.tier == 'quick' else ['spring', 'positional', 'generalized']
+  backs = ['spring'] if ctx.tier == 'quick' else ['spring', 'positional']
   out = {}
   for bk in backs:
     c = bundled_case(int(rng.integers(1 << 30)), bk)
@@ -727,7 +757,7 @@ def check_dr(c):
 
 
 def leg_dr(ctx, acc, rng):
-  backs = [PIPES[1 + ctx.seed % 2]] if ctx.tier == 'quick' else list(PIPES)
+  backs = [PIPES[1 + ctx.seed % 2]] if ctx.tier == 'quick' else list(PIPES[1:])
   out = {}
   for bk in backs:
     c = dr_case(int(rng.integers(1 << 30)), bk)
@@ -817,7 +847,7 @@ def check_physics(pipe, xml, qs, qds, acts, n, cache=None):
       fb, fs = cache['fb'], cache['fs']
     else:
       f = make_fn(pipe, sysm)
-      fb, fs = jax.jit(jax.vmap(f, in_axes=(0, 0, 0, None))), jax.jit(f)
+      fb, fs = jax.jit(jax.vmap(f, in_axes=(0, 0, 0, None), axis_name='batch')), jax.jit(f)
       if cache is not None:
         cache.update(fb=fb, fs=fs)
     ob = fb(jp.asarray(qs), jp.asarray(qds), jp.asarray(acts), n)
@@ -826,8 +856,15 @@ def check_physics(pipe, xml, qs, qds, acts, n, cache=None):
       os_ = fs(jp.asarray(qs[i]), jp.asarray(qds[i]), jp.asarray(acts[i]), n)
       d = first_diff(member(ob, i), os_, False)
       if is_fail(d):
+        dev = worst_dev(member(ob, i), os_)
+        amp = sensitivity(fs, qs[i], qds[i], acts[i], n)
+        if amp > RTOL:   # the solo step itself amplifies a 1e-15 perturbation beyond the tolerance: not comparable
+          if cache is not None:
+            cache.setdefault('ill', []).append(dict(member=i, deviation=dev, solo_amplification_of_1e15=amp, leaf=d['leaf']))
+          continue
         return dict(key=f'C07:physics:{pipe}', what=f'{pipe}: jit(vmap(init+{n} steps))(batch)[{i}] differs from '
-                    f'jit(init+{n} steps)(batch[{i}]) at leaf {d["leaf"]}{d.get("index", "")}: {d["got"]} vs {d["ref"]}',
+                    f'jit(init+{n} steps)(batch[{i}]) at leaf {d["leaf"]}{d.get("index", "")}: {d["got"]} vs {d["ref"]} '
+                    f'(largest relative deviation {dev:.3g}; the solo step moves by {amp:.3g} under a 1e-15 perturbation)',
                     member=i, batched=d['got'], solo=d['ref'], **rp), ob, fb, worst
       if d:
         worst = max(worst, d['worst'])
@@ -849,7 +886,7 @@ def leg_physics(ctx, acc, rng, t_end):
     rng.shuffle(order)
     jobs += [(xml, meta, contacts, p) for p in order]
   hist = dict(jobs=0, members=0, roles={}, B={}, contacts=0, link_types={}, worst_rel={}, indep_exact=0, indep_inexact=[],
-              eager={}, skipped_jobs=0)
+              eager={}, skipped_jobs=0, skipped_ill_conditioned=0, ill_conditioned_examples=[])
   for ji, (xml, meta, contacts, pipe) in enumerate(jobs):
     if time.time() > t_end and hist['jobs'] >= 3:
       hist['skipped_jobs'] = len(jobs) - ji
@@ -875,6 +912,10 @@ def leg_physics(ctx, acc, rng, t_end):
     hist['B'][B] = hist['B'].get(B, 0) + 1
     hist['link_types'][meta['link_types']] = hist['link_types'].get(meta['link_types'], 0) + 1
     hist['worst_rel'][pipe] = max(hist['worst_rel'].get(pipe, 0.0), worst)
+    ill = {e['member'] for e in cache.get('ill', [])}
+    hist['skipped_ill_conditioned'] += len(ill)
+    hist['ill_conditioned_examples'] += [dict(e, pipeline=pipe, contacts=contacts, role=roles[e['member']])
+                                         for e in cache.get('ill', [])][:2]
     for r_ in roles:
       hist['roles'][r_] = hist['roles'].get(r_, 0) + 1
     acc.evals += B
@@ -887,7 +928,7 @@ def leg_physics(ctx, acc, rng, t_end):
     for b, role in enumerate(roles):
       if role == 'dup0':
         d = first_diff(member(ob, b), member(ob, 0), False)
-        if is_fail(d):
+        if is_fail(d) and 0 not in ill and sensitivity(cache['fs'], qs[0], qds[0], acts[0], n) <= RTOL:
           acc.fail(key=f'C07:physics-dup:{pipe}', what=f'{pipe}: two identical members of one batch (0 and {b}) get different '
                    f'results at {d["leaf"]}: {d["got"]} vs {d["ref"]}', leg='physics', pipeline=pipe, xml=xml, q=qs.tolist(),
                    qd=qds.tolist(), act=acts.tolist(), n=n, member=b)
@@ -942,6 +983,10 @@ def leg_physics(ctx, acc, rng, t_end):
                leg='eager', pipeline=pipe, xml=xml)
       continue
     acc.evals += 1
+    if is_fail(d) and sensitivity(jax.jit(f), q, qd, act, 1) > RTOL:
+      hist['skipped_ill_conditioned'] += 1
+      hist['eager'][pipe] = dict(skipped='ill-conditioned input', wall_s=round(time.time() - t0, 1))
+      continue
     if is_fail(d):
       acc.fail(key=f'C07:jit-eager:{pipe}', what=f'{pipe}: jit(init+step) differs from eager init+step at {d["leaf"]}: {d["got"]} '
                f'vs {d["ref"]}', leg='eager', pipeline=pipe, xml=xml, q=q.tolist(), qd=qd.tolist(), act=act.tolist(),
@@ -972,7 +1017,7 @@ def run_all(ctx, seed_offset=0, physics_budget=None):
     for o, a in zip(out, acc.after):
       (finish_reduction if a[0] == 'reduction' else finish_rank)(acc, o, *a[1:])
   t = time.time()
-  budget = physics_budget if physics_budget is not None else ctx.budget(75, 600)
+  budget = physics_budget if physics_budget is not None else ctx.budget(60, 600)
   leg_physics(ctx, acc, np.random.default_rng(rng.integers(1 << 62)), time.time() + budget)
   walls['physics'] = round(time.time() - t, 1)
   acc.extra['wall_s_per_leg'] = walls
@@ -1029,7 +1074,7 @@ def replay(ctx, rp):
     return (False, f['what']) if f else (True, 'batched members agree with their solo runs on this batch')
   if leg == 'physics-indep':
     sysm = m['mjcf'].loads(rp['xml'])
-    fb = jax.jit(jax.vmap(make_fn(rp['pipeline'], sysm), in_axes=(0, 0, 0, None)))
+    fb = jax.jit(jax.vmap(make_fn(rp['pipeline'], sysm), in_axes=(0, 0, 0, None), axis_name='batch'))
     B = len(rp['q'])
     o1 = fb(jp.asarray(rp['q']), jp.asarray(rp['qd']), jp.asarray(np.array(rp['act']).reshape(B, -1)), int(rp['n']))
     o2 = fb(jp.asarray(rp['q2']), jp.asarray(rp['qd2']), jp.asarray(np.array(rp['act2']).reshape(B, -1)), int(rp['n']))
@@ -1052,7 +1097,7 @@ def replay(ctx, rp):
     fn = dict(safenorm=lambda x: m['math'].safe_norm(x), normalize=lambda x: m['math'].normalize(x),
               ortho=lambda a: m['math'].orthogonals(a),
               frame1=lambda a: m['kinematics'].link_to_joint_frame(m['Motion'](ang=a[None], vel=jp.zeros((1, 3))))[0].ang)[rp['fn']]
-    real = jax.jit(jax.vmap(fn))(jp.asarray(X))
+    real = jax.jit(jax.vmap(fn, axis_name='batch'))(jp.asarray(X))
     for i in range(len(X)):
       d = first_diff(member(real, i), fn(jp.asarray(X[i])), False)
       if is_fail(d):
